@@ -213,3 +213,17 @@ Definition Inv_rgb (s : rgb) : Prop :=
 Definition toward (c g : Z) (l : list Z) : Prop :=
   ((c <= g)%Z -> mono_le (c :: l) /\ Forall (fun z => (z <= g)%Z) l) /\
   ((g <= c)%Z -> mono_ge (c :: l) /\ Forall (fun z => (g <= z)%Z) l).
+
+(* idx, idx+1, ..., idx+k-1 *)
+Fixpoint zseq (idx : Z) (k : nat) : list Z :=
+  match k with O => [] | S k' => idx :: zseq (idx + 1)%Z k' end.
+
+Definition l3 (c : triple) : list Z := let '(r, g, b) := c in [r; g; b].
+
+Definition ch (i : nat) (c : triple) : Z := nth i (l3 c) 0%Z.
+
+Definition target_of (r g b : pynum) : triple := (zval r, zval g, zval b).
+
+(* fade takes the one-step shortcut *)
+Definition fade_shortcut (s : rgb) (r g b d : pynum) : bool :=
+  num_eq d 0 || triple_eqb (color s) (target_of r g b).
